@@ -189,6 +189,13 @@ def plan(tier, seed):
          A.timing(l="r", basis_l="ground-rydberg", eom=False) + [("add", ["c", 100, 1.0, 0.0, 0.0], "g"), ("delay", 92, "r")], 3),
         (corner("unit8", prefix=A.GL, bw=30, eom=dict(mod_bandwidth=8), name="unit8-eom-slower-than-channel"), tG, 2),
         (corner("awk", prefix=A.DEEP_GL_AFTER, name="awk-deep-root-after-eom"), tG, 2),
+        # a phase-jump time of ZERO on channels with a fall time of 120 ns: how long another channel's output takes to fall has nothing
+        # to do with the phase-jump time (idle slots shorter than the fall time sit between a pulse and the channel's end)
+        (corner("unit8", prefix=A.GL, pjt=0, name="unit8-phase-jump-time-zero"), A.timing(eom=False), 2),
+        # ... and the same from a root in which one channel already ends with such a short idle slot, with a wait on the other channel that
+        # reaches beyond it
+        (corner("unit8", prefix=A.GL + [("add", A.C52, "g"), ("delay", 16, "g")], pjt=0, name="unit8-phase-jump-time-zero-short-idle-tail"),
+         A.timing(eom=False) + [("delay", 100, "l")], 3),
     ]
     if tier == "thorough":
         worlds = [(w, a, d + 1) for w, a, d in worlds]
